@@ -203,7 +203,9 @@ def run_others(col):
 
 # ---- (b) fields_ / tables_ ------------------------------------------------------------------------------------------
 
-SRC = {"A": ["tbl", "ta", None, None], "B": ["tbl", "tb", None, None], "C": ["tbl", "tc", "sch", None], "AX": ["tbl", "ta", None, "x"]}
+SRC = {"A": ["tbl", "ta", None, None], "B": ["tbl", "tb", None, None], "C": ["tbl", "tc", "sch", None], "AX": ["tbl", "ta", None, "x"],
+       # same table name in another schema, and an alias that equals another table's name: same rendered namespace, different tables
+       "AS": ["tbl", "ta", "s1", None], "AS2": ["tbl", "ta", ["d", "s1"], None], "BA": ["tbl", "tb", None, "ta"]}
 KEYS = tuple(SRC)
 NAMES = ("a", "b")
 
